@@ -11,13 +11,15 @@ an account reached through a variable counts.  World is excluded.
 namespace Ledger.C23
 open Ledger.Machine
 
+variable {cfg : Cfg}
+
 /-- In any successful execution, a tracked pair `(a, c)` of a non-world account that
     is never used as an unbounded source ends with
     `initial + postings ≥ min initial (-B)`. -/
-theorem bounded_source_floor (s : Script) (inp : Input) (r : Result) (h : sem s inp = .ok r)
-    (env : Env) (henv : resolvedEnv s inp = some env)
+theorem bounded_source_floor (s : Script) (inp : Input) (r : Result) (h : sem cfg s inp = .ok r)
+    (env : Env) (henv : resolvedEnv cfg s inp = some env)
     (a c : String) (ha : a ≠ "world") (B : Int) (hB : 0 ≤ B)
-    (hb : StmtsBound env a c B s.stmts) (v0 : Int) (hv : trackedInit s inp a c = some v0) :
+    (hb : StmtsBound env a c B s.stmts) (v0 : Int) (hv : trackedInit cfg s inp a c = some v0) :
     min (inp.balance a c) (-B) ≤ inp.balance a c + flowIn a c r.postings - flowOut a c r.postings := by
   obtain ⟨ds, env', bal, pairs, st, _, hp, hst, rfl⟩ := sem_ok_iff h
   obtain ⟨hgood, hwf, hbal⟩ := prepare_ok hp
@@ -35,7 +37,7 @@ theorem bounded_source_floor (s : Script) (inp : Input) (r : Result) (h : sem s 
 /-- Per-send form: one send statement never takes a bounded tracked balance below
     `min (balance before) (-B)`. -/
 theorem send_source_floor (env : Env) (s : Stmt) (hs : s.isSend = true) (st st' : State)
-    (h : evalStmt env s st = .ok st') (hwf : st.bal.WF)
+    (h : evalStmt cfg env s st = .ok st') (hwf : st.bal.WF)
     (a c : String) (ha : a ≠ "world") (B : Int) (hB : 0 ≤ B) (hb : StmtBound env a c B s)
     (v : Int) (hv : st.bal.get a c = some v) :
     ∃ v', st'.bal.get a c = some v' ∧ min v (-B) ≤ v' := by
@@ -59,8 +61,8 @@ def exScript : Script :=
 def exInput : Input :=
   { vars := [], balance := fun a c => if a = "b" ∧ c = "USD" then 25 else 0, accountMeta := fun _ => none }
 
-example : postingsOf (sem exScript exInput) = some [⟨"b", "y", "USD", 35⟩] := by decide +kernel
-example : trackedInit exScript exInput "b" "USD" = some 25 := by decide +kernel
+example : postingsOf (sem Cfg.fixed exScript exInput) = some [⟨"b", "y", "USD", 35⟩] := by decide +kernel
+example : trackedInit Cfg.fixed exScript exInput "b" "USD" = some 25 := by decide +kernel
 example : StmtsBound [] "b" "USD" 10 exScript.stmts := by
   intro s hs
   simp only [exScript, List.mem_singleton] at hs
